@@ -163,11 +163,12 @@ class Summary:
         self.returns = []      # (path condition, Value)
         self.panics = []       # (path condition, message)
         self.unsupported = []  # (path condition, what)
+        self.observed = []     # (path condition, observation name, [Value or None per argument])
         self.paths = 0
 
 
 class Translator:
-    def __init__(self, funcs, inline=None, consts=None, mode="bv"):
+    def __init__(self, funcs, inline=None, consts=None, mode="bv", observe=None):
         # mode "bv": machine words as bit-vectors (exact wrap semantics everywhere).
         # mode "int": mathematical integers; the *WithOverflow* flags are range predicates and
         # the wrapped result is `exact mod 2^w`; Div/Rem are fresh q, r constrained by the
@@ -177,6 +178,10 @@ class Translator:
         self.side = []
         self.funcs = funcs
         self.inline = inline or {}   # callee regex in call text -> function pattern
+        # callee regex -> observation name: the call is not entered; its translatable arguments
+        # are recorded with the path condition and its result is an opaque value (any use of it
+        # other than returning it ends the path as unsupported)
+        self.observe = observe or {}
         self.consts = consts or {}   # named constant -> int
         self.fresh = 0
         self.decls = []
@@ -222,6 +227,12 @@ class Translator:
             if v is None or v.kind != "tuple":
                 raise Unsupported("tuple field of non-tuple " + t)
             return v.items[idx]
+        m = re.match(r"\(\((_\d+) as Ok\)\.0: (.*?)\)$", t)
+        if m:
+            v = env.get(m.group(1))
+            if v is None or v.kind != "result":
+                raise Unsupported("Ok payload of non-result " + t)
+            return v.items[1]
         m = re.match(r"\(\(\*(_\d+)\)\.(\d+): (.*?)\)$", t)
         if m:
             key = "%s.f%s" % (m.group(1), m.group(2))
@@ -279,7 +290,15 @@ class Translator:
             v = env.get(m.group(1))
             if v is None:
                 raise Unsupported("discriminant of unbound " + t)
+            if v.kind == "result":   # Ok = 0, Err = 1
+                if self.mode == "int":
+                    return Value("int", "(ite %s 0 1)" % v.items[0], 64, True)
+                return Value("int", "(ite %s %s %s)" % (v.items[0], bv_const(0, 64),
+                                                         bv_const(1, 64)), 64, True)
             return v
+        m = re.match(r"Result::<.*>::(Ok|Err)\(.*\)$", t)
+        if m:
+            return Value("variant", m.group(1))
         m = re.match(r"(.*) as (\w+) \(IntToInt\)$", t)
         if m:
             v = self.operand(m.group(1), env, fn)
@@ -524,6 +543,42 @@ class Translator:
                         env2[dest] = val
                         self._run(fn, ret, env2, pc + [c], summary, depth, steps + 1)
                     return
+            tm = re.match(r"<(\w+) as TryFrom<(\w+)>>::try_from$", callee.strip())
+            if tm and tm.group(1) in INT_TYPES and tm.group(2) in INT_TYPES:
+                # contract of core's integer TryFrom: Ok(x as T) iff x is representable in T
+                try:
+                    (x,) = [self.operand(a, env, fn) for a in split_top(argtext)]
+                except Unsupported as e:
+                    summary.unsupported.append((smt_and(pc), "try_from arg: %s" % e))
+                    return
+                w, signed = ty_width(tm.group(1))
+                lo, hi = self.int_range(w, signed)
+                if self.mode == "int":
+                    ok = "(and (>= %s %s) (<= %s %s))" % (x.smt, self.int_lit(lo), x.smt,
+                                                          self.int_lit(hi))
+                    val = Value("int", x.smt, w, signed)
+                elif x.signed and signed and w < x.width:
+                    ok = "(and (bvsge %s %s) (bvsle %s %s))" % (
+                        x.smt, bv_const(lo, x.width), x.smt, bv_const(hi, x.width))
+                    val = Value("int", "((_ extract %d 0) %s)" % (w - 1, x.smt), w, signed)
+                else:
+                    summary.unsupported.append((smt_and(pc), "try_from " + callee))
+                    return
+                env2 = dict(env)
+                env2[dest] = Value("result", items=[ok, val])
+                return self._run(fn, ret, env2, pc, summary, depth, steps + 1)
+            for pat, obs in self.observe.items():
+                if re.search(pat, callee):
+                    cargs = []
+                    for a in split_top(argtext):
+                        try:
+                            cargs.append(self.operand(a, env, fn))
+                        except Unsupported:
+                            cargs.append(None)
+                    summary.observed.append((smt_and(pc), obs, cargs))
+                    env2 = dict(env)
+                    env2[dest] = Value("opaque", "opaque:" + obs)
+                    return self._run(fn, ret, env2, pc, summary, depth, steps + 1)
             summary.unsupported.append((smt_and(pc), "call to " + callee))
             return
         m = re.match(r"(_\d+) = (.*?)\((.*)\) -> unwind continue$", s)
